@@ -3224,8 +3224,17 @@ Proof.
   destruct (isNecessary _); [injection H as <-; exact Du|].
   destruct (negb _); [injection H as <-; exact Du|].
   apply rbind_ok in H as (s1 & H1%IH & H%VE_removeNode).
-  eapply VE_trans; [exact Du|]. eapply VE_trans; [|eapply VE_trans; eauto].
-  apply VE_same_nodes; [reflexivity|auto].
+  eapply VE_trans; [exact Du|].
+  apply (VE_trans _ (emit (EvUnnec p) (unlink s c p))); [apply VE_same_nodes; [reflexivity|auto]|].
+  eapply VE_trans; eauto.
+Qed.
+
+Lemma INQ_rfold {A} (f : state -> A -> res state) l :
+  (forall s a s', f s a = Ok s' -> INQ s -> INQ s') -> forall s s', rfold f l s = Ok s' -> INQ s -> INQ s'.
+Proof.
+  intros Hf. induction l as [|a l IH]; intros s s' H I; cbn in H.
+  - injection H as <-. exact I.
+  - apply rbind_ok in H as (s1 & H1 & H). eapply IH; [exact H|]. eapply Hf; eauto.
 Qed.
 
 Lemma INQ_invalidateNode fuel : forall s n s', invalidateNode fuel s n = Ok s' -> INQ s -> INQ s'.
@@ -3243,9 +3252,7 @@ Proof.
     eapply VE_INQ; [|exact I0]. eapply VE_trans; [exact H3|apply VE_upd; intros []; reflexivity]. }
   assert (I2 : INQ s2).
   { destruct (nkind (nd s1 n)); try (injection H2 as <-; exact I1).
-    revert I1. generalize dependent s1. induction (b_rhsNodes _) as [|x l IHl]; intros s1 H2 I1; cbn [rfold] in H2.
-    - injection H2 as <-. exact I1.
-    - apply rbind_ok in H2 as (t & Ht & H2). eapply IHl; [exact H2|]. eapply IH; eauto. }
+    eapply INQ_rfold; [|exact H2|exact I1]. intros t a t' Ht It. eapply IH; eauto. }
   set (s3 := upd s2 n (set valid (fun _ => false))) in *.
   set (s4 := s3 <| invq := invq s3 ++ children (nd s3 n) |>) in *.
   intros r Hr. destruct (decide (r = n)) as [->|Hne].
@@ -3323,8 +3330,9 @@ Proof.
     - apply pframe_same; reflexivity.
     - destruct e2; [injection H1 as <- <- <-; apply pframe_refl|].
       destruct (inst s2 _ _ _) as [s3 root] eqn:E. apply pf_inst in E. injection H1 as <- <- <-.
-      eapply pframe_trans; [exact E|]. eapply pframe_trans; [apply pframe_emit; exact I|].
-      apply pframe_same; reflexivity. }
+      eapply pframe_trans; [exact E|].
+      match goal with |- pframe s3 (updb (emit ?ev s3) _ _) =>
+        apply (pframe_trans _ (emit ev s3)); [apply pframe_emit; exact Logic.I|apply pframe_same; reflexivity] end. }
   destruct e1 as [e1|]; [discriminate|]. destruct built as [root|]; [|discriminate].
   apply ebind_cases in H as (s2 & e2 & H2 & [(x & -> & -> & [=])|(-> & H)]).
   apply ebind_cases in H as (s3 & e3 & [H3 ->]%lift_cases & [(x & [=] & _)|(_ & H)]).
@@ -3332,7 +3340,7 @@ Proof.
   apply (proj1 (propagateInvalidity_valid _ _ _ H)).
   apply rfold_invalidate_all in H3 as (_ & _ & H3). apply H3; [exact Hr|].
   apply pf_changeParent in H2 as (_ & _ & _ & _ & _ & D2 & _). apply D2.
-  change (is_Some (nodes s1 !! r)). destruct P1 as (_ & _ & _ & _ & _ & D1 & _). apply D1, Hs.
+  apply some_upd. change (is_Some (nodes s1 !! r)). destruct P1 as (_ & _ & _ & _ & _ & D1 & _). apply D1, Hs.
 Qed.
 
 (* the invalidation half alone: also the queue is clean afterwards when it was before *)
@@ -3344,4 +3352,65 @@ Proof.
   destruct (propagateInvalidity_valid _ _ _ H2) as (V2 & I2).
   pose proof (I2 (I1 I)) as I'. split; [exact I'|]. intros r Hr Hs.
   pose proof (V2 r (V1 r Hr Hs)) as Hv. split; [exact Hv|apply I', Hv].
+Qed.
+
+(** C08.4 (the sites that test before they queue): the success path of a recompute queues only
+    valid dependents, so it keeps "no invalid node is queued" *)
+Lemma childrenLoop_gen_valid (s0 : state) l : forall s held s' held',
+  heapOnly s0 s ->
+  (forall m, inHeap s m = true -> inHeap s0 m = true \/ valid (nd s0 m) = true) ->
+  (forall h, held = Some h -> valid (nd s0 h) = true) ->
+  rfold (fun '(s, held) c =>
+         if bool_decide (held = Some c) then Ok (s, held)
+         else if negb (shouldRecomputeChild s c) then Ok (s, held)
+         else
+           s <-! (match held with Some h => heapAdd s h | None => Ok s end);
+           Ok (s, Some c)) l (s, held) = Ok (s', held') ->
+  heapOnly s0 s' /\
+  (forall m, inHeap s' m = true -> inHeap s0 m = true \/ valid (nd s0 m) = true) /\
+  (forall h, held' = Some h -> valid (nd s0 h) = true).
+Proof.
+  induction l as [|c l IH]; intros s held s' held' Ho Hq Hh H; cbn [rfold] in H.
+  - injection H as <- <-. auto.
+  - apply rbind_ok in H as ([s1 h1] & H1 & H). revert H. apply IH; clear IH.
+    + destruct (bool_decide _); [injection H1 as <- <-; exact Ho|].
+      destruct (negb _); [injection H1 as <- <-; exact Ho|].
+      apply rbind_ok in H1 as (s2 & H2 & [= <- <-]).
+      destruct held; [eapply heapOnly_trans; [exact Ho|eapply heapAdd_heapOnly, H2]|injection H2 as <-; exact Ho].
+    + destruct (bool_decide _); [injection H1 as <- <-; exact Hq|].
+      destruct (negb _); [injection H1 as <- <-; exact Hq|].
+      apply rbind_ok in H1 as (s2 & H2 & [= <- <-]).
+      destruct held as [h|]; [|injection H2 as <-; exact Hq].
+      intros m. rewrite (heapAdd_inHeap _ _ _ m H2). intros [Hm|Hm]%orb_true_iff; [|auto].
+      apply bool_decide_eq_true in Hm as ->. right. apply Hh. reflexivity.
+    + destruct (bool_decide _); [injection H1 as <- <-; exact Hh|].
+      destruct (shouldRecomputeChild s c) eqn:Es; cbn [negb] in H1; [|injection H1 as <- <-; exact Hh].
+      apply rbind_ok in H1 as (s2 & _ & [= <- <-]). intros h [= <-].
+      rewrite <- (heapOnly_nd _ _ c Ho). apply C08_owed_child_is_valid, Es.
+Qed.
+
+Lemma INQ_successTail s n s' e imm : successTail s n = Ok (s', e, imm) -> INQ s -> INQ s'.
+Proof.
+  unfold successTail. set (t0 := insert_handler n _). intros H I.
+  apply rbind_ok in H as ([t1 held] & H1 & H).
+  apply rbind_ok in H as ([t2 imm2] & H2 & [= <- <- <-]).
+  rewrite insert_handlers_eq.
+  assert (V0 : forall m, valid (nd t0 m) = valid (nd s m)).
+  { intros m. change (valid (nd (upd s n (set changedAt (fun _ => stabNum s))) m) = valid (nd s m)).
+    apply (nd_upd_keep valid). intros []; reflexivity. }
+  assert (I0 : INQ t0) by (intros r Hr; rewrite V0 in Hr; apply (I r Hr)).
+  unfold childrenLoop in H1.
+  destruct (childrenLoop_gen_valid t0 _ _ _ _ _ (heapOnly_refl t0) ltac:(auto) ltac:(intros ? [=]) H1) as (Ho1 & Q1 & Hh1).
+  assert (Q2 : heapOnly t0 t2 /\ forall m, inHeap t2 m = true -> inHeap t0 m = true \/ valid (nd t0 m) = true).
+  { destruct held as [h|]; [|injection H2 as <- <-; auto].
+    destruct (canRecomputeImmediately t1 n h); [injection H2 as <- <-; auto|].
+    apply rbind_ok in H2 as (t3 & H3 & [= <- <-]).
+    split; [eapply heapOnly_trans; [exact Ho1|eapply heapAdd_heapOnly, H3]|].
+    intros m. rewrite (heapAdd_inHeap _ _ _ m H3). intros [Hm|Hm]%orb_true_iff; [|auto].
+    apply bool_decide_eq_true in Hm as ->. right. apply Hh1. reflexivity. }
+  destruct Q2 as (Ho2 & Q2). intros r Hr.
+  change (valid (nd t2 r) = false) in Hr. change (inHeap t2 r = false).
+  rewrite (heapOnly_nd _ _ r Ho2) in Hr.
+  destruct (inHeap t2 r) eqn:E; [|reflexivity]. destruct (Q2 r E) as [Hq|Hq]; [|congruence].
+  rewrite (I0 r Hr) in Hq. discriminate.
 Qed.
